@@ -250,8 +250,26 @@ func pmmvTryGen(r *vlib.Rand, o pmmvGenOpts) *pmmvConfig {
 	eFloor := e0 &^ (pmmvPage - 1)
 	small := func() int { return r.Range(1, pmmvMinInt(np, 1+r.Intn(6))) }
 	ks, ke := s0, e0
-	mode := r.Intn(7)
+	mode := r.Intn(8)
 	switch mode {
+	case 7:
+		// the image ends one to three frames below a multiple of 64 frames of its pool: the frames taken
+		// right behind it start in the middle of a bitmap word and run into the next one
+		cfg.KMode = "ends-just-below-a-bitmap-word"
+		if np >= 70 {
+			words := r.Range(1, (np-3)/64)
+			if words > 4 {
+				words = r.Range(1, 4)
+			}
+			first := 0
+			if r.Bool() {
+				first = r.Range(0, words*64-4)
+			}
+			ks = s0 + uint64(first)*pmmvPage
+			ke = s0 + uint64(words*64-r.Range(1, 3))*pmmvPage
+		} else {
+			ke = pmmvMinU64(e0, ks+uint64(small())*pmmvPage)
+		}
 	case 0:
 		cfg.KMode = "start"
 		ks = s0
@@ -558,6 +576,8 @@ type pmmvPT struct {
 type pmmvEnv struct {
 	info         *vlib.Arena
 	book         *vlib.Arena // bookkeeping memory handed to the allocator (nil before the request)
+	book2        *vlib.Arena // a second region, handed out only when allowSecond is set (retry after a failed bootstrap)
+	allowSecond  bool
 	reserveSizes []uint64
 	failReserve  bool
 	failMapAt    int // index of the map call that fails; -1 = none
@@ -610,6 +630,11 @@ func (e *pmmvEnv) reset() {
 		e.book.Free()
 		e.book = nil
 	}
+	if e.book2 != nil {
+		e.book2.Free()
+		e.book2 = nil
+	}
+	e.allowSecond = false
 	e.reserveSizes = e.reserveSizes[:0]
 	e.maps = e.maps[:0]
 	e.pt = e.pt[:0]
@@ -665,8 +690,19 @@ func (e *pmmvEnv) reserve(size uintptr) (uintptr, *kernel.Error) {
 		return 0, pmmvErrReserve
 	}
 	if e.book != nil {
-		// a second request: the first arena stays mapped (it may be in use); not expected
-		return 0, pmmvErrReserve
+		// a second request: the first arena stays mapped (it may be in use); only expected when a failed
+		// bootstrap is tried again
+		if !e.allowSecond || e.book2 != nil {
+			return 0, pmmvErrReserve
+		}
+		a, err := vlib.NewArena(0, int(size), false)
+		if err != nil {
+			e.tooBig = true
+			return 0, pmmvErrReserve
+		}
+		a.Fill(0xA5)
+		e.book2 = a
+		return a.Base, nil
 	}
 	a, err := vlib.NewArena(0, int(size), false)
 	if err != nil {
